@@ -1061,6 +1061,15 @@ func (p *Proof) undoAdd(numAdds, numLeaves uint64, cachedHashes []Hash, toDestro
 	forestRows := TreeRows(numLeaves)
 	prevForestRows := TreeRows(numLeaves - numAdds)
 
+	// Nothing existed before the add if all the leaves were added by it. The check
+	// against maxPositionAtRow below can't tell as it returns 0 both when only
+	// position 0 exists and when no position exists.
+	if numLeaves == numAdds {
+		p.Proof = p.Proof[:0]
+		p.Targets = p.Targets[:0]
+		return []Hash{}, nil
+	}
+
 	// Move positions to their previous positions before the empty roots were destroyed.
 	for _, destroyed := range toDestroy {
 		for i, target := range targetsWithHash.positions {
